@@ -15,7 +15,8 @@ RULE = (
     "with_inputs/with_outputs renames (the same alpha-renaming is applied to the flat side so names are equal). Every "
     "(flat, nested) pair is built through the public API, 25% of the time deriving from objects that were already "
     "used; compared: required/optional input sets, returned values on both runners, last-invocation arguments of every "
-    "inner function, and both against RefEval. Non-trivial: the group has >= 1 value crossing the boundary in each "
+    "inner function, and both against RefEval; plus pairs whose wrapped nodes mutate a default-valued mutable argument, "
+    "built once and run three times each (run k of the nested build = run k of the flat build). Non-trivial: the group has >= 1 value crossing the boundary in each "
     "direction or a binding/rename/select at the boundary; distinct = canonical shape of the nested spec."
 )
 ASSUMPTIONS = [
@@ -151,16 +152,78 @@ def compare_pair(ctx, A, B, info, depth_label):
     return True
 
 
+def mutable_default_pair(rng):
+    """Flat DAG with 1-2 nodes that mutate a default-valued mutable argument in place, and the same program
+    with those nodes wrapped (depth 1-2, optionally with a renamed wrapper input; sometimes two wrappers around
+    nodes sharing one function object)."""
+    base = gen.gen_dag(rng, n_nodes=(2, 4), n_inputs=(1, 2), p_default_input=0.0, p_default_edge=0.0, p_gen=0.0, name="g")
+    for ns in base["nodes"]:
+        ns["fid"] = ns["name"]
+    src = gen.consumed_inputs(base)[0]
+    muts = []
+    for j in range(rng.randint(1, 2)):
+        d, b = rng.choice([(["seed"], "append_mut"), ({"items": ["seed"]}, "nested_mut"), ({"seed": 0}, "setitem_mut")])
+        muts.append({"k": "fn", "name": f"mut{j}", "fid": f"mut{j}", "params": [{"n": src}, {"n": f"acc{j}", "d": copy.deepcopy(d)}], "outs": [f"hist{j}"], "beh": [b, f"acc{j}", src]})
+    flat = {"name": "g", "nodes": copy.deepcopy(base["nodes"] + muts), "bind": {}}
+    cur = muts
+    for d in range(rng.randint(1, 2)):
+        sub = {"k": "sub", "name": f"box{d}", "prog": {"name": f"box{d}", "nodes": cur, "bind": {}}}
+        cur = [sub]
+    nested = {"name": "g", "nodes": copy.deepcopy(base["nodes"]) + cur, "bind": {}}
+    ren = None
+    if rng.random() < 0.4:
+        ren = {"acc0": "acc0_ext"}
+        cur[0]["rename_in"] = [ren]
+        for ns in flat["nodes"]:
+            if ns["name"] == "mut0":
+                ns["rename_in"] = [ren]
+    return flat, nested, src
+
+
+def compare_repeat(ctx, A, B, src):
+    """Inner signature defaults stay per-run fresh copies when the node sits inside a nested graph: the k-th
+    run of the nested build returns what the k-th run of the flat build returns."""
+    case = {"flat": A, "nested": B, "info": {"mutable_defaults": True}}
+    rt.reset_program()
+    bA = build_program(A)
+    bB = build_program(B)
+    if set(bA.graph.inputs.required) != set(bB.graph.inputs.required) or set(bA.graph.inputs.optional) != set(bB.graph.inputs.optional):
+        ctx.violation("C05:input-sets", f"mutable-defaults: flat {sorted(bA.graph.inputs.required)}/{sorted(bA.graph.inputs.optional)} nested {sorted(bB.graph.inputs.required)}/{sorted(bB.graph.inputs.optional)}", case)
+    req = list(bA.graph.inputs.required)
+    for k in range(3):
+        provided = {r: f"run{k}:{r}" for r in req}
+        runner = ctx.rng.choice(["sync", "async"])
+        oA = core.execute(bA, dict(provided), runner)
+        oB = core.execute(bB, dict(provided), runner)
+        ctx.obs["repeat_runs_compared"] += 1
+        if oA.exc is not None or oB.exc is not None:
+            ctx.violation("C05:raised", f"mutable-defaults run {k}/{runner}: flat -> {oA.exc!r}; nested -> {oB.exc!r}", case)
+            return
+        ctx.obs["values_compared"] += len(oB.values)
+        if oA.values != oB.values:
+            diff = sorted(k_ for k_ in set(oA.values) | set(oB.values) if oA.values.get(k_, "<absent>") != oB.values.get(k_, "<absent>"))
+            ctx.violation("C05:values:repeat-run", f"run {k} ({runner}) of the same objects: nested values differ from the flat graph on {diff}: nested {core.short({x: oB.values.get(x) for x in diff})} flat {core.short({x: oA.values.get(x) for x in diff})}", case)
+            return
+
+
 def run(ctx):
     n = 120 if ctx.tier == "quick" else 900
     if ctx.replay:
         c = ctx.replay["case"]
-        compare_pair(ctx, c["flat"], c["nested"], c.get("info", {}), "replay")
+        if c.get("info", {}).get("mutable_defaults"):
+            compare_repeat(ctx, c["flat"], c["nested"], None)
+        else:
+            compare_pair(ctx, c["flat"], c["nested"], c.get("info", {}), "replay")
         ctx.case("r1")
         ctx.case("r2")
         return
     for i in range(n):
         rng = ctx.rng
+        if i % 6 == 5:
+            A, B, src = mutable_default_pair(rng)
+            compare_repeat(ctx, A, B, src)
+            ctx.case({"s": gen.shape_of(B), "mut": True}, True)
+            continue
         spec = gen.gen_dag(rng, n_nodes=(3, 9), p_default_edge=0.08, p_emit=0.1 if rng.random() < 0.3 else 0.0)
         bind, _ = gen.assign_sources(rng, spec)
         spec["bind"] = bind
